@@ -12,6 +12,9 @@ open CentrifugeVerif DriverLib ChanWriter
 structure St where
   p : PCW := {}
   h : Nat := 0
+  /-- client-level scenario: the connection's per-channel writer and the channel's batch config -/
+  cp : PCW := {}
+  ccfg : BatchCfg := ⟨0, 0, false⟩
 
 def fmtBatch (b : List CItem) : String := "[" ++ joinWith "," (b.map (fun i => toString i.id)) ++ "]"
 
@@ -51,6 +54,40 @@ def step (s : St) (line : String) : St × String :=
     match kvNat rest "ch", parseAdd rest with
     | some ch, some (x, c) => let (p', b) := s.p.add ch x c; ({ s with p := p' }, fmtGroups (optGroup b))
     | _, _ => (s, "bad-op")
+  | "gadd" :: rest =>
+    -- virtual time runs to the earliest pending timer; that timer's flush is held inside the flush
+    -- callback while the Add runs (it has to wait for the writer's lock), so: fire, then add
+    match kvNat rest "ch", parseAdd rest with
+    | some ch, some (x, c) =>
+      match s.p.nextDeadline with
+      | some d =>
+        if d ≤ s.p.now + 64 then
+          let (p1, bs) := ({ s.p with now := max s.p.now d }).fireDue
+          let (p2, b) := p1.add ch x c
+          ({ s with p := p2 }, fmtGroups [bs ++ (match b with | some y => [y] | none => [])])
+        else
+          let (p', b) := ({ s.p with now := s.p.now + 64 }).add ch x c
+          ({ s with p := p' }, fmtGroups (optGroup b))
+      | none =>
+        let (p', b) := ({ s.p with now := s.p.now + 64 }).add ch x c
+        ({ s with p := p' }, fmtGroups (optGroup b))
+    | _, _ => (s, "bad-op")
+  | "creset" :: rest =>
+    match kvNat rest "delay", kvNat rest "size", kvNat rest "latest" with
+    | some d, some sz, some l => ({ s with cp := {}, ccfg := ⟨sz, d, l != 0⟩ }, "creset")
+    | _, _, _ => (s, "bad-op")
+  | "cadd" :: rest =>
+    match (kv rest "f").bind parseFrame, kvNat rest "id" with
+    | some f, some i =>
+      let (p', b) := s.cp.add 1 ⟨i, 0, f⟩ s.ccfg
+      ({ s with cp := p' }, "seq=" ++ fmtBatch (match b with | some y => y | none => []))
+    | _, _ => (s, "bad-op")
+  | ["csleep", d] =>
+    match d.toNat? with
+    | some dl =>
+      let (p', gs) := PCW.sleep (dl + 2) s.cp (s.cp.now + dl) []
+      ({ s with cp := p' }, "seq=" ++ fmtBatch (gs.flatten.flatten))
+    | none => (s, "bad-op")
   | "get" :: rest =>
     match kvNat rest "ch" with
     | some ch => let (p', h) := s.p.getWriter ch; ({ p := p', h := h }, "got")
